@@ -1,5 +1,7 @@
 import PynnVerif.Proofs.TopK
 import PynnVerif.Proofs.HeapSort
+import PynnVerif.Proofs.GenHeap
+import PynnVerif.Proofs.GenDeheap
 import Mathlib.Data.Nat.Basic  -- `LinearOrder Nat` for the concrete example at the end
 
 /-!
@@ -82,5 +84,296 @@ which the elaborator's `decide` does not unfold; kernel evaluation adds no axiom
 example : (run true (100 : Nat) 3 (fun n => [5, 1, 5, 9, 2, 7, 100].getD n 100)
     [(0, true), (1, false), (2, true), (0, false), (3, true), (4, false), (5, true), (6, false)]).toList.map (·.idx)
     = [0, 4, 1] := by decide +kernel
+
+/-! ## The tie to the code as a theorem: the *translated* kernels refine the model
+
+`Gen/Kernels.lean` is regenerated from the source text of `pynndescent/utils.py` on every run
+(`harness/translate_kernels.py`: arrays with out-of-bounds = `none`, loops over fuel).  The theorems
+below are about those generated definitions (`GenK.*`), for every input; `zip2` / `zip3` turn the
+kernels' parallel arrays into the model's row.  `Q` is *any* type with decidable `≤`, `<` (no order
+axioms: kernels and model do the same comparisons). -/
+
+/-- **`utils.simple_heap_push` is the model's `push false`.**  For every non-empty row held in two
+equal-sized arrays and `fuel ≥ size + 1`, the translated kernel stays inside both arrays, terminates,
+returns `1` iff the model accepts (else `0`), and leaves exactly the model's row in the arrays. -/
+theorem kernel_simple_heap_push_refines {Q : Type} [LE Q] [LT Q] [DecidableLE Q] [DecidableLT Q]
+    (pr : Array Q) (ix : Array Int) (p : Q) (n : Int) (fuel : Nat)
+    (hs : pr.size = ix.size) (hk : 0 < pr.size) (hf : pr.size + 1 ≤ fuel) :
+    ∃ pr' ix', GenK.simple_heap_push fuel pr ix p n
+        = some (pr', ix', if (push false (zip2 pr ix) p n false).2 then 1 else 0)
+      ∧ pr'.size = pr.size ∧ ix'.size = ix.size
+      ∧ zip2 pr' ix' = (push false (zip2 pr ix) p n false).1 :=
+  simple_heap_push_refines pr ix p n fuel hs hk hf
+
+/-- **`utils.checked_heap_push` is the model's `push true`** (duplicate scan over the whole row,
+sentinels included, then the same hole sift). -/
+theorem kernel_checked_heap_push_refines {Q : Type} [LE Q] [LT Q] [DecidableLE Q] [DecidableLT Q]
+    (pr : Array Q) (ix : Array Int) (p : Q) (n : Int) (fuel : Nat)
+    (hs : pr.size = ix.size) (hk : 0 < pr.size) (hf : pr.size + 1 ≤ fuel) :
+    ∃ pr' ix', GenK.checked_heap_push fuel pr ix p n
+        = some (pr', ix', if (push true (zip2 pr ix) p n false).2 then 1 else 0)
+      ∧ pr'.size = pr.size ∧ ix'.size = ix.size
+      ∧ zip2 pr' ix' = (push true (zip2 pr ix) p n false).1 :=
+  checked_heap_push_refines pr ix p n fuel hs hk hf
+
+/-- **`utils.checked_flagged_heap_push` is the model's `push true` with flags**: three equal-sized
+arrays; the flag byte `f` is stored with the entry and moves with it (model flag = `f ≠ 0`). -/
+theorem kernel_checked_flagged_heap_push_refines {Q : Type} [LE Q] [LT Q] [DecidableLE Q] [DecidableLT Q]
+    (pr : Array Q) (ix fl : Array Int) (p : Q) (n f : Int) (fuel : Nat)
+    (hs : pr.size = ix.size) (hs' : pr.size = fl.size) (hk : 0 < pr.size) (hf : pr.size + 1 ≤ fuel) :
+    ∃ pr' ix' fl', GenK.checked_flagged_heap_push fuel pr ix fl p n f
+        = some (pr', ix', fl', if (push true (zip3 pr ix fl) p n (f != 0)).2 then 1 else 0)
+      ∧ pr'.size = pr.size ∧ ix'.size = ix.size ∧ fl'.size = fl.size
+      ∧ zip3 pr' ix' fl' = (push true (zip3 pr ix fl) p n (f != 0)).1 :=
+  checked_flagged_heap_push_refines pr ix fl p n f fuel hs hs' hk hf
+
+/-- **`utils.siftdown` is the model's `siftdownSwap`** over the whole row (the prefix
+`heap1[:j]` the callers pass *is* the array here), for every start position `elt ≥ 0`. -/
+theorem kernel_siftdown_refines {Q : Type} [LE Q] [LT Q] [DecidableLE Q] [DecidableLT Q]
+    (h1 : Array Q) (h2 : Array Int) (elt : Int) (fuel : Nat)
+    (hs : h1.size = h2.size) (he : 0 ≤ elt) (hf : h1.size + 1 ≤ fuel) :
+    ∃ h1' h2', GenK.siftdown fuel h1 h2 elt = some (h1', h2')
+      ∧ h1'.size = h1.size ∧ h2'.size = h2.size
+      ∧ zip2 h1' h2' = siftdownSwap (zip2 h1 h2) h1.size elt.toNat :=
+  siftdown_refines h1 h2 elt fuel hs he hf
+
+/-- The abstraction loses nothing: two equal-sized arrays are determined by their zipped row, so
+"`zip2 pr' ix'` = the model's row" pins the kernel's output arrays down completely. -/
+theorem kernel_arrays_determined {Q : Type} {pr pr' : Array Q} {ix ix' : Array Int}
+    (h : pr.size = ix.size) (h' : pr'.size = ix'.size) (e : zip2 pr ix = zip2 pr' ix') :
+    pr = pr' ∧ ix = ix' := zip2_inj h h' e
+
+/-- **Memory safety of the heap kernels.**  numba compiles them without bounds checks; the translation
+answers `none` for any load/store outside `0 ≤ i < len` and for fuel exhaustion.  With equal-sized
+arrays, a non-empty row (pushes) and `fuel ≥ size + 1`, none of the four kernels ever does. -/
+theorem kernel_pushes_memory_safe {Q : Type} [LE Q] [LT Q] [DecidableLE Q] [DecidableLT Q]
+    (pr : Array Q) (ix fl : Array Int) (p : Q) (n f elt : Int) (fuel : Nat)
+    (hs : pr.size = ix.size) (hs' : pr.size = fl.size) (hf : pr.size + 1 ≤ fuel) :
+    (0 < pr.size →
+      GenK.simple_heap_push fuel pr ix p n ≠ none ∧ GenK.checked_heap_push fuel pr ix p n ≠ none ∧
+      GenK.checked_flagged_heap_push fuel pr ix fl p n f ≠ none) ∧
+    (0 ≤ elt → GenK.siftdown fuel pr ix elt ≠ none) :=
+  ⟨fun hk => ⟨simple_heap_push_safe pr ix p n fuel hs hk hf, checked_heap_push_safe pr ix p n fuel hs hk hf,
+      checked_flagged_heap_push_safe pr ix fl p n f fuel hs hs' hk hf⟩,
+   fun he => siftdown_safe pr ix elt fuel hs he hf⟩
+
+/-- **The precondition is real**: on an empty row (`k = 0`) each push kernel reads `priorities[0]`
+outside the array — undefined behaviour in the compiled code — whatever the fuel.  (The model answers
+"rejected"; the two agree only on non-empty rows, which is what the theorems above assume.) -/
+theorem kernel_push_empty_row_out_of_bounds {Q : Type} [LE Q] [LT Q] [DecidableLE Q] [DecidableLT Q]
+    (pr : Array Q) (ix fl : Array Int) (p : Q) (n f : Int) (fuel : Nat) (h0 : pr.size = 0) :
+    GenK.simple_heap_push fuel pr ix p n = none ∧ GenK.checked_heap_push fuel pr ix p n = none ∧
+    GenK.checked_flagged_heap_push fuel pr ix fl p n f = none :=
+  ⟨simple_heap_push_empty pr ix p n fuel h0, checked_heap_push_empty pr ix p n fuel h0,
+   checked_flagged_heap_push_empty pr ix fl p n f fuel h0⟩
+
+/-- **End to end on the generated kernel.**  Start from `make_heap`'s arrays (`k ≥ 1` slots
+`(top, -1)`) and feed *any* sequence of candidates (repetitions allowed) through the translated
+`checked_heap_push` with `fuel ≥ k + 1` (`kernelRun`).  No call leaves an array; the final arrays have
+`k` slots and, read as a row, are the model's row — hence a max-heap in which every held candidate was
+offered and sits next to its own distance, empty slots are `(-1, top)`, no candidate is held twice, the
+row is full or holds every finite offer, and no finite offer that is absent is closer than a held one. -/
+theorem kernel_checked_topk (top : P) (htop : ∀ x : P, x ≤ top) (k : Nat) (hk : 0 < k) (d : Nat → P)
+    (offers : List Nat) (fuel : Nat) (hf : k + 1 ≤ fuel) :
+    ∃ pr ix, kernelRun fuel d offers (Array.replicate k top) (Array.replicate k (-1)) = some (pr, ix) ∧
+      pr.size = k ∧ ix.size = k ∧
+      zip2 pr ix = run true top k d (offers.map (fun n => (n, false))) ∧
+      IsHeap (zip2 pr ix) ∧
+      (∀ j (hj : j < pr.size) (hj' : j < ix.size), 0 ≤ ix[j] →
+          ix[j].toNat ∈ offers ∧ pr[j] = d ix[j].toNat ∧ pr[j] < top) ∧
+      (∀ j (hj : j < pr.size) (hj' : j < ix.size), ix[j] < 0 → ix[j] = -1 ∧ pr[j] = top) ∧
+      (((zip2 pr ix).toList.filter (fun e => 0 ≤ e.idx)).map (·.idx)).Nodup ∧
+      ((∀ j (hj : j < ix.size), 0 ≤ ix[j]) ∨
+        (∀ o ∈ offers, d o < top → ∃ j, ∃ hj : j < ix.size, ix[j] = (o : Int))) ∧
+      (∀ j (hj : j < pr.size) (hj' : j < ix.size), 0 ≤ ix[j] → ∀ o ∈ offers, d o < top →
+          (¬ ∃ j', ∃ hj' : j' < ix.size, ix[j'] = (o : Int)) → pr[j] ≤ d o) := by
+  obtain ⟨pr, ix, hrun, s1, s2, hz⟩ := kernelRun_refines fuel d offers (Array.replicate k top)
+    (Array.replicate k (-1)) (by simp) (by simpa using hk) (by simpa using hf)
+  simp only [Array.size_replicate] at s1 s2
+  have hs : pr.size = ix.size := by omega
+  rw [zip2_replicate] at hz
+  have hz' : zip2 pr ix = run true top k d (offers.map (fun n => (n, false))) := hz
+  obtain ⟨_, t2, t3, t4, t5, t6, t7⟩ := topk_checked top htop k d (offers.map (fun n => (n, false)))
+  simp only [← hz'] at t2 t3 t4 t5 t6 t7
+  have hmem : ∀ j (hj : j < pr.size) (hj' : j < ix.size), (⟨pr[j], ix[j], false⟩ : Entry P) ∈ zip2 pr ix :=
+    fun j hj hj' => (mem_zip2 pr ix hs _).mpr ⟨j, hj, rfl⟩
+  have hoff : ∀ (m : Nat) (b : Bool), (m, b) ∈ offers.map (fun n => (n, false)) → m ∈ offers := by
+    intro m b hm
+    obtain ⟨a, ha, hab⟩ := List.mem_map.mp hm
+    cases hab; exact ha
+  have hex : ∀ o : Nat, (∃ e ∈ zip2 pr ix, e.idx = (o : Int)) ↔ ∃ j, ∃ hj : j < ix.size, ix[j] = (o : Int) := by
+    intro o
+    constructor
+    · rintro ⟨e, he, heo⟩
+      obtain ⟨j, hj, rfl⟩ := (mem_zip2 pr ix hs e).mp he
+      exact ⟨j, by omega, heo⟩
+    · rintro ⟨j, hj, hjo⟩
+      exact ⟨_, hmem j (by omega) hj, hjo⟩
+  refine ⟨pr, ix, hrun, s1, s2, hz', t2, ?_, ?_, t5, ?_, ?_⟩
+  · intro j hj hj' h0
+    obtain ⟨a, b, c⟩ := t3 _ (hmem j hj hj') h0
+    exact ⟨hoff _ _ a, b, c⟩
+  · intro j hj hj' h0
+    exact t4 _ (hmem j hj hj') h0
+  · rcases t6 with h | h
+    · left; intro j hj; exact h _ (hmem j (by omega) hj)
+    · right; intro o ho hfin
+      exact (hex o).mp (h (o, false) (List.mem_map.mpr ⟨o, ho, rfl⟩) hfin)
+  · intro j hj hj' h0 o ho hfin habs
+    exact t7 _ (hmem j hj hj') h0 (o, false) (List.mem_map.mpr ⟨o, ho, rfl⟩) hfin
+      (fun hh => habs ((hex o).mp hh))
+
+/-- **End to end, `checked_flagged_heap_push`** (the kernel NN-descent fills its heaps with): any
+sequence of `(candidate, new?)` offers, repetitions allowed, fed through the translated three-array
+kernel from `make_heap`'s arrays stays in bounds, and the three arrays, read as a row, are the model's
+row — so every clause of `topk_checked` holds of them, the flag of a held candidate being one it was
+offered with. -/
+theorem kernel_flagged_topk (top : P) (htop : ∀ x : P, x ≤ top) (k : Nat) (hk : 0 < k) (d : Nat → P)
+    (offers : List (Nat × Bool)) (fuel : Nat) (hf : k + 1 ≤ fuel) :
+    ∃ pr ix fl, kernelRunFlagged fuel d offers (Array.replicate k top) (Array.replicate k (-1))
+        (Array.replicate k 0) = some (pr, ix, fl) ∧
+      pr.size = k ∧ ix.size = k ∧ fl.size = k ∧
+      zip3 pr ix fl = run true top k d offers ∧
+      (let h := zip3 pr ix fl
+       IsHeap h ∧
+       (∀ e ∈ h, 0 ≤ e.idx → (e.idx.toNat, e.flag) ∈ offers ∧ e.prio = d e.idx.toNat ∧ e.prio < top) ∧
+       (∀ e ∈ h, e.idx < 0 → e.idx = -1 ∧ e.prio = top) ∧
+       ((h.toList.filter (fun e => 0 ≤ e.idx)).map (·.idx)).Nodup ∧
+       ((∀ e ∈ h, 0 ≤ e.idx) ∨ (∀ o ∈ offers, d o.1 < top → ∃ e ∈ h, e.idx = (o.1 : Int))) ∧
+       (∀ a ∈ h, 0 ≤ a.idx → ∀ o ∈ offers, d o.1 < top → (¬ ∃ e ∈ h, e.idx = (o.1 : Int)) →
+          a.prio ≤ d o.1)) := by
+  obtain ⟨pr, ix, fl, hrun, s1, s2, s3, hz⟩ := kernelRunFlagged_refines fuel d offers (Array.replicate k top)
+    (Array.replicate k (-1)) (Array.replicate k 0) (by simp) (by simp) (by simpa using hk) (by simpa using hf)
+  simp only [Array.size_replicate] at s1 s2 s3
+  rw [zip3_replicate] at hz
+  have hz' : zip3 pr ix fl = run true top k d offers := hz
+  obtain ⟨_, t⟩ := topk_checked top htop k d offers
+  exact ⟨pr, ix, fl, hrun, s1, s2, s3, hz', by rw [hz']; exact t⟩
+
+/-- **End to end, `simple_heap_push`** (the search's result heap), under its caller's obligation that
+no candidate is offered twice. -/
+theorem kernel_simple_topk (top : P) (htop : ∀ x : P, x ≤ top) (k : Nat) (hk : 0 < k) (d : Nat → P)
+    (offers : List Nat) (hdistinct : offers.Nodup) (fuel : Nat) (hf : k + 1 ≤ fuel) :
+    ∃ pr ix, kernelRunSimple fuel d offers (Array.replicate k top) (Array.replicate k (-1)) = some (pr, ix) ∧
+      pr.size = k ∧ ix.size = k ∧
+      zip2 pr ix = run false top k d (offers.map (fun n => (n, false))) ∧
+      (let h := zip2 pr ix
+       IsHeap h ∧
+       (∀ e ∈ h, 0 ≤ e.idx → e.idx.toNat ∈ offers ∧ e.prio = d e.idx.toNat ∧ e.prio < top) ∧
+       (∀ e ∈ h, e.idx < 0 → e.idx = -1 ∧ e.prio = top) ∧
+       ((h.toList.filter (fun e => 0 ≤ e.idx)).map (·.idx)).Nodup ∧
+       ((∀ e ∈ h, 0 ≤ e.idx) ∨ (∀ o ∈ offers, d o < top → ∃ e ∈ h, e.idx = (o : Int))) ∧
+       (∀ a ∈ h, 0 ≤ a.idx → ∀ o ∈ offers, d o < top → (¬ ∃ e ∈ h, e.idx = (o : Int)) →
+          a.prio ≤ d o)) := by
+  obtain ⟨pr, ix, hrun, s1, s2, hz⟩ := kernelRunSimple_refines fuel d offers (Array.replicate k top)
+    (Array.replicate k (-1)) (by simp) (by simpa using hk) (by simpa using hf)
+  simp only [Array.size_replicate] at s1 s2
+  rw [zip2_replicate] at hz
+  have hz' : zip2 pr ix = run false top k d (offers.map (fun n => (n, false))) := hz
+  have hd : ((offers.map (fun n => (n, false))).map (·.1)).Nodup := by
+    simpa [List.map_map, Function.comp_def] using hdistinct
+  obtain ⟨_, t2, t3, t4, t5, t6, t7⟩ := topk_simple top htop k d (offers.map (fun n => (n, false))) hd
+  refine ⟨pr, ix, hrun, s1, s2, hz', ?_⟩
+  simp only [hz']
+  refine ⟨t2, ?_, t4, t5, ?_, ?_⟩
+  · intro e he h0
+    obtain ⟨a, b, c⟩ := t3 e he h0
+    obtain ⟨m, hm, hmb⟩ := List.mem_map.mp a
+    have hm' : m = e.idx.toNat := congrArg Prod.fst hmb
+    exact ⟨hm' ▸ hm, b, c⟩
+  · rcases t6 with h | h
+    · exact Or.inl h
+    · exact Or.inr (fun o ho hfin => h (o, false) (List.mem_map.mpr ⟨o, ho, rfl⟩) hfin)
+  · intro a ha h0 o ho hfin habs
+    exact t7 a ha h0 (o, false) (List.mem_map.mpr ⟨o, ho, rfl⟩) hfin habs
+
+/-- **Final sort with the generated `siftdown`.**  `deheap_sort`'s per-row loop (swap slots `0` and
+`j`, then `siftdown(dist[i, :j], ind[i, :j], 0)`, for `j = k-1 … 1`), written out with the *translated*
+`siftdown` running on the prefix views (`kernelDeheapSort`; the outer loop itself is a `prange` over
+2-D arrays, outside the translated subset, and stays tied to the code by the bit-exact comparison):
+on a max-heap row it never leaves the arrays, and returns the same (candidate, distance) pairs in
+ascending distance order. -/
+theorem kernel_deheap_sort_spec (pr : Array P) (ix : Array Int) (hs : pr.size = ix.size)
+    (hh : IsHeap (zip2 pr ix)) (fuel : Nat) (hf : pr.size + 1 ≤ fuel) :
+    ∃ pr' ix', kernelDeheapSort fuel pr ix = some (pr', ix') ∧ pr'.size = pr.size ∧ ix'.size = ix.size ∧
+      zip2 pr' ix' = deheapSort (zip2 pr ix) ∧
+      (zip2 pr' ix').Perm (zip2 pr ix) ∧
+      (∀ i j (hi : i < pr'.size) (hj : j < pr'.size), i ≤ j → pr'[i] ≤ pr'[j]) := by
+  obtain ⟨pr', ix', h1, s1, s2, hz⟩ := kernelDeheapSort_refines fuel pr ix hs hf
+  obtain ⟨hp, hsort⟩ := deheapSort_spec (zip2 pr ix) hh
+  refine ⟨pr', ix', h1, s1, s2, hz, by rw [hz]; exact hp, ?_⟩
+  intro i j hi hj hij
+  have hsz : (zip2 pr' ix').size = pr'.size := by simp; omega
+  have := hsort i j (by rw [← hz]; omega) (by rw [← hz]; omega) hij
+  simp only [← hz] at this
+  simpa using this
+
+/-- **`utils.deheap_sort` itself (translated: 2-D arrays, `A[i, :j]` views handed to the translated
+`siftdown`) is the model's `deheapSort` on every row.**  For rectangular `n × k` arrays (any `n`, `k`,
+including `0`) and `fuel ≥ n + k + 1` the translated kernel never leaves an array, returns its two arrays
+(twice, as the Python does), keeps the shape, and row `r` of the result is `deheapSort` of row `r`. -/
+theorem kernel_deheap_sort_refines {Q : Type} [LE Q] [LT Q] [DecidableLE Q] [DecidableLT Q]
+    (I : Array (Array Int)) (D : Array (Array Q)) (k : Nat) (fuel : Nat)
+    (hs : D.size = I.size) (hDk : ∀ r (h : r < D.size), D[r].size = k) (hIk : ∀ r (h : r < I.size), I[r].size = k)
+    (hf : I.size + k + 1 ≤ fuel) :
+    ∃ I' D', GenK.deheap_sort fuel I D = some (I', D', I', D') ∧ D'.size = D.size ∧ I'.size = I.size ∧
+      ∀ r (h : r < D.size) (h' : r < I.size) (g : r < D'.size) (g' : r < I'.size),
+        D'[r].size = k ∧ I'[r].size = k ∧ zip2 D'[r] I'[r] = deheapSort (zip2 D[r] I[r]) :=
+  deheap_sort_refines I D k fuel hs hDk hIk hf
+
+/-- **Final sort, on the generated `deheap_sort`**: if every row is a max-heap (which the push
+theorems guarantee), every row of the result holds the same (candidate, distance) pairs in ascending
+distance order. -/
+theorem kernel_deheap_sort_sorts (I : Array (Array Int)) (D : Array (Array P)) (k : Nat) (fuel : Nat)
+    (hs : D.size = I.size) (hDk : ∀ r (h : r < D.size), D[r].size = k) (hIk : ∀ r (h : r < I.size), I[r].size = k)
+    (hheap : ∀ r (h : r < D.size) (h' : r < I.size), IsHeap (zip2 D[r] I[r]))
+    (hf : I.size + k + 1 ≤ fuel) :
+    ∃ I' D', GenK.deheap_sort fuel I D = some (I', D', I', D') ∧ D'.size = D.size ∧ I'.size = I.size ∧
+      ∀ r (h : r < D.size) (h' : r < I.size) (g : r < D'.size) (g' : r < I'.size),
+        (zip2 D'[r] I'[r]).Perm (zip2 D[r] I[r]) ∧
+        ∀ a b (ha : a < D'[r].size) (hb : b < D'[r].size), a ≤ b → D'[r][a] ≤ D'[r][b] := by
+  obtain ⟨I', D', h1, h2, h3, h4⟩ := deheap_sort_refines I D k fuel hs hDk hIk hf
+  refine ⟨I', D', h1, h2, h3, ?_⟩
+  intro r h h' g g'
+  obtain ⟨q1, q2, q3⟩ := h4 r h h' g g'
+  obtain ⟨hp, hsort⟩ := deheapSort_spec (zip2 D[r] I[r]) (hheap r h h')
+  refine ⟨by rw [q3]; exact hp, ?_⟩
+  intro a b ha hb hab
+  have := hsort a b (by rw [← q3]; simp; omega) (by rw [← q3]; simp; omega) hab
+  simp only [← q3] at this
+  simpa using this
+
+/-- Non-vacuity, generated kernels executed by the Lean kernel (`Nat` priorities): an accepted push
+that sifts two levels down, a rejected far push, a duplicate rejected by the scan (and accepted by
+`simple_heap_push`, which has none), the flag byte travelling with its entry, one `siftdown`, and the
+out-of-bounds read on an empty row. -/
+example : GenK.simple_heap_push 8 #[9, 7, 8, 3, 6, 2, 1] #[0, 1, 2, 3, 4, 5, 6] (4 : Nat) 10
+    = some (#[8, 7, 4, 3, 6, 2, 1], #[2, 1, 10, 3, 4, 5, 6], 1) := by decide +kernel
+example : GenK.simple_heap_push 8 #[9, 7, 8, 3, 6, 2, 1] #[0, 1, 2, 3, 4, 5, 6] (9 : Nat) 10
+    = some (#[9, 7, 8, 3, 6, 2, 1], #[0, 1, 2, 3, 4, 5, 6], 0) := by decide +kernel
+example : GenK.checked_heap_push 4 #[9, 7, 8] #[0, 1, 2] (4 : Nat) 2 = some (#[9, 7, 8], #[0, 1, 2], 0)
+    ∧ GenK.simple_heap_push 4 #[9, 7, 8] #[0, 1, 2] (4 : Nat) 2 = some (#[8, 7, 4], #[2, 1, 2], 1) := by
+  decide +kernel
+example : GenK.checked_flagged_heap_push 4 #[9, 7, 8] #[0, 1, 2] #[0, 0, 1] (4 : Nat) 5 1
+    = some (#[8, 7, 4], #[2, 1, 5], #[1, 0, 1], 1) := by decide +kernel
+example : GenK.siftdown 6 #[1, 7, 8, 3, 6] #[0, 1, 2, 3, 4] (0 : Int)
+    = some (#[8, 7, 1, 3, 6], #[2, 1, 0, 3, 4]) := by decide +kernel
+example : GenK.simple_heap_push 100 (#[] : Array Nat) #[] 4 2 = none := by decide +kernel
+/-- the end-to-end run on the generated kernel: same offers as the model example above, `k = 3` -/
+example : (kernelRun 4 (fun n => [5, 1, 5, 9, 2, 7, 100].getD n 100) [0, 1, 2, 0, 3, 4, 5, 6]
+    (Array.replicate 3 (100 : Nat)) (Array.replicate 3 (-1))) = some (#[5, 2, 1], #[0, 4, 1]) := by
+  decide +kernel
+
+example : (kernelRunFlagged 4 (fun n => [5, 1, 5, 9, 2, 7, 100].getD n 100)
+    [(0, true), (1, false), (2, true), (0, false), (3, true), (4, false), (5, true), (6, false)]
+    (Array.replicate 3 (100 : Nat)) (Array.replicate 3 (-1)) (Array.replicate 3 0))
+    = some (#[5, 2, 1], #[0, 4, 1], #[1, 0, 0]) := by decide +kernel
+
+example : kernelDeheapSort 6 #[9, 7, 8, 3, 6] #[0, 1, 2, 3, 4]
+    = some (#[3, 6, 7, 8, 9], #[3, 4, 1, 2, 0]) := by decide +kernel
+
+example : GenK.deheap_sort 6 #[#[0, 1, 2], #[5, 6, 7]] #[#[9, 7, 8], #[4, 4, (1 : Nat)]]
+    = some (#[#[1, 2, 0], #[7, 6, 5]], #[#[7, 8, 9], #[1, 4, 4]], #[#[1, 2, 0], #[7, 6, 5]], #[#[7, 8, 9], #[1, 4, 4]]) := by
+  decide +kernel
 
 end Pynn.C11
